@@ -172,6 +172,7 @@ mutual
 theorem transfer_frame (M : Kind → Cat → Mode) (fuel : Nat) : (s : Shape) → FrameSpec (transfer M fuel s)
   | .scalar _ => by intro h i h' r e; simp only [transfer] at e; exact leafScalar_frame _ _ _ _ e
   | .any => by intro h i h' r e; simp only [transfer] at e; exact leafAny_frame _ _ _ _ _ _ e
+  | .untyped => by intro h i h' r e; simp only [transfer] at e; exact leafAny_frame _ _ _ _ _ _ e
   | .coll k s => by
     intro h i h' r e; simp only [transfer] at e
     exact nodeColl_frame _ _ (transfer_frame M fuel s) _ _ _ _ e
@@ -319,10 +320,13 @@ theorem leafScalar_fresh (n0 : Nat) : FreshSpec n0 leafScalar := by
     rw [← e.1, ← e.2]; exact ⟨nc, itemIn_atom _ _ _⟩
   | ref a => simp [leafScalar] at e
 
-theorem leafAny_fresh (n0 : Nat) (fuel : Nat) : FreshSpec n0 (leafAny .deep fuel) := by
+theorem leafAny_fresh (n0 : Nat) (m : Mode) (hm : m.copies = true) (fuel : Nat) : FreshSpec n0 (leafAny m fuel) := by
   intro h i h' i' le nc e
-  simp only [leafAny] at e
-  exact deepCopy_fresh n0 fuel _ _ _ _ le nc e
+  cases m <;> simp only [Mode.copies] at hm <;> simp only [leafAny] at e
+  case deep => exact deepCopy_fresh n0 fuel _ _ _ _ le nc e
+  case rebuild => exact deepCopy_fresh n0 fuel _ _ _ _ le nc e
+  case error => simp at e
+  all_goals exact absurd hm (by decide)
 
 theorem nodeColl_fresh (n0 : Nat) (m : Mode) (hm : m.copies = true) (fuel : Nat) {f : Heap → Item → R Item}
     (hf : FrameSpec f) (hs : FreshSpec n0 f) : FreshSpec n0 (nodeColl m fuel f) := by
@@ -334,6 +338,7 @@ theorem nodeColl_fresh (n0 : Nat) (m : Mode) (hm : m.copies = true) (fuel : Nat)
   | ref a =>
     cases m <;> simp only [Mode.copies] at hm <;> simp only [nodeColl] at e
     case deep => exact deepCopy_fresh n0 fuel _ _ _ _ le nc e
+    case error => simp at e
     case rebuild =>
       cases h1 : mapItems f h (h.cells a).items with
       | mk h1' o =>
@@ -358,6 +363,7 @@ theorem nodeRec_fresh (n0 : Nat) (m : Mode) (hm : m.copies = true) (fuel : Nat)
   | ref a =>
     cases m <;> simp only [Mode.copies] at hm <;> simp only [nodeRec] at e
     case deep => exact deepCopy_fresh n0 fuel _ _ _ _ le nc e
+    case error => simp at e
     case rebuild =>
       cases h1 : tf h (h.cells a).items with
       | mk h1' o =>
@@ -376,6 +382,7 @@ theorem nodeWrap_fresh (n0 : Nat) (m : Mode) (hm : m.copies = true) (fuel : Nat)
   intro h i h' i' le nc e
   cases m <;> simp only [Mode.copies] at hm <;> simp only [nodeWrap] at e
   case deep => exact deepCopy_fresh n0 fuel _ _ _ _ le nc e
+  case error => simp at e
   case rebuild => exact hs _ _ _ _ le nc e
   all_goals exact absurd hm (by decide)
 
@@ -426,9 +433,13 @@ theorem transfer_fresh (n0 : Nat) (M : Kind → Cat → Mode) (fuel : Nat) :
   | .any, hs => by
     intro h i h' i' le nc e
     simp only [transfer] at e
-    simp only [safeShape, beq_iff_eq] at hs
-    rw [hs] at e
-    exact leafAny_fresh n0 fuel _ _ _ _ le nc e
+    simp only [safeShape] at hs
+    exact leafAny_fresh n0 _ hs fuel _ _ _ _ le nc e
+  | .untyped, hs => by
+    intro h i h' i' le nc e
+    simp only [transfer] at e
+    simp only [safeShape] at hs
+    exact leafAny_fresh n0 _ hs fuel _ _ _ _ le nc e
   | .coll k s, hs => by
     intro h i h' i' le nc e
     simp only [transfer] at e
